@@ -347,10 +347,21 @@ class Exec:
         pass
 
     def st_Import(self, st):
-        self.frames[-1].module.add_import(st, self.frames[-1].imports)
+        self._local_import(st)
 
     def st_ImportFrom(self, st):
-        self.frames[-1].module.add_import(st, self.frames[-1].imports)
+        self._local_import(st)
+
+    def _local_import(self, st):
+        # a function-level import binds local names (it may shadow a parameter of the same name, as in
+        # `def apply(self, oper, copy=True): ... import copy`)
+        fr = self.frames[-1]
+        table = {}
+        fr.module.add_import(st, table)
+        fr.imports.update(table)
+        for name, imp in table.items():
+            if name in fr.env:
+                self.set_env(fr.env, name, self._import_value(imp))
 
     def st_Expr(self, st):
         if isinstance(st.value, ast.Constant):
